@@ -47,8 +47,53 @@ SEEDS = {
  "C20-2": ("C20", "__typename selected under an ALIAS on an interface / union typed selection", "MISSED (author resumed)", "missed as built: aliases are not applied to __typename"),
 }
 
-def log_summary(name):
-    p = "/tmp/seedlogs/%s.log" % name
+# ---- round 2 (a second, independent set of seed agents that were told what round 1 had taken);
+# stored as <property>-3 / <property>-4; sources /tmp/seedout2/<property>-1|2, logs /tmp/seedlogs2
+SEEDS2 = {
+ "C01-3": ("C01-1", "an interface-typed field; an implementing entity whose field declared on the interface has @requires; the operation selects that field on the interface level next to a fragment on that implementer", "C01 quick", "missed as built; caught after adding the S-ireq family and the decoration 'fragment on an implementer next to an interface-level field'"),
+ "C01-4": ("C01-2", "a @requires field set with a NESTED field that has ARGUMENTS (dimensions { size(unit: CM) }) and the client selecting the same nested field with another argument value", "MISSED", "not caught: fedlab's @requires selections have no arguments (limit, DESIGN 8.6)"),
+ "C02-3": ("C02-1", "__typename selected on an object without PossibleTypes (copied by merge_fields) and a subgraph type name containing a quote, backslash or control character", "C02 quick", "missed as built; caught after the author added an escaping alphabet at every text position, the ifacelist context and stripped-plan shapes (this also exposed a genuine defect: Object.Copy drops type information, fixed in 8a79740)"),
+ "C02-4": ("C02-2", "a non-object value at a NULLABLE object position", "C02 quick", "caught as built"),
+ "C03-3": ("C03-1", "two literal arguments with byte-identical JSON at types that differ only in an inner non-null level, the looser position first", "C03 quick", "missed as built; caught after the author added the decoration 'twin' (equal literals at ten pairings of similar types, both orders)"),
+ "C03-4": ("C03-2", "a variable used in an argument of a directive that survives normalization (custom executable directive), named like a canonical name or also used as a field argument", "C03 quick", "missed as built; caught after the author added a custom directive and the decoration 'tag' at every site kind with renaming-equivalent spellings"),
+ "C04-3": ("C04-1", "three leaf selections with one response name: on object type A, on sibling type B (different field / argument), then on the interface identical to the first", "C04 quick", "missed as built; caught after the author added three- and four-way response-name conflicts in every order"),
+ "C04-4": ("C04-2", "an aliased introspection field as the only subscription root field / a __-prefixed alias on an ordinary root field", "C04 quick", "missed as built; caught after the author added aliases at the subscription root in both directions"),
+ "C05-3": ("C05-1", "the token stream ends while a list value is open ({f(a: [1, 2)", "C05 quick", "caught as built (termination oracle)"),
+ "C05-4": ("C05-2", "a block string whose first non-blank content is the escape sequence followed by white space", "C05 quick", "missed as built (needs six atoms); caught after the author made the escape ONE atom, enumerated contents of <= 4 atoms in six hosts and added a literal oracle"),
+ "C06-3": ("C06-1", "a variable with a default and an explicit JSON null", "C06 quick", "caught as built"),
+ "C06-4": ("C06-2", "a walked list with a null item at a lower index than an item needing single-value-to-list coercion", "C06 quick", "missed as built; caught after the author added every order of {null, plain, coercion item, wrong item} and the normalized-variables clause"),
+ "C07-3": ("C07-1", "a BATCH entity fetch answered with exactly zero entities", "C07 quick", "missed as built; caught after adding the fault kind entities-empty"),
+ "C07-4": ("C07-2", "ValidateRequiredExternalFields, a PARTIAL failure (data plus an error pointing at a null @requires input) of an entity NESTED in the object the dependant fetch is built from, not as its last member", "MISSED", "not caught: the fault kinds have no partial failures with error paths and the resolver option is off (limit, DESIGN 8.6)"),
+ "C08-3": ("C08-1", "a chain of three nested fetches without explicit dependencies whose middle provider has an empty merge path", "C08 quick", "caught as built (part a)"),
+ "C08-4": ("C08-2", "a dependency chain A -> B -> C, A fails, C has merge targets from an earlier successful fetch: skipping is not transitive", "C07 quick", "missed by C08 (its gated executions have no faults); caught as built by C07 ('new representation', 12 fingerprints)"),
+ "C09-3": ("C09-1", "an entity whose keys form a diamond over four subgraphs (two equally short multi-hop routes): route order follows map iteration", "C09 quick", "missed as built; caught after adding the S-keys diamond family to the map-order part"),
+ "C09-4": ("C09-2", "the same entity field at one path directly on an interface and under a fragment on one implementer (scoped + unscoped duplicate fetch)", "C09 quick (and C01 quick as built)", "C01 caught it as built; C09 after adding the shape to its alphabet (with Author.name remote)"),
+ "C10-3": ("C10-1", "two sibling deferred groups and a slow Flush: the render lock is released before the frame is flushed", "C10 quick", "missed as built (request-granularity orders, synchronous writer); caught after adding one slow-flush execution per operation (all parked groups released together while a frame is flushed)"),
+ "C10-4": ("C10-2", "a disabled @defer (if: false) nested inside an enabled one below a deferred object", "C10 quick", "missed as built; caught after adding disabled variants to the defer placements"),
+ "C11-3": ("C11-1", "an inbound follower registering between the leader's Delete and its HasFollowers check is never woken", "C11 quick", "caught as built (deadlock in I1 at bound 2)"),
+ "C11-4": ("C11-2", "two data sources with different ids and the same name, identical inputs in flight together", "C11 quick", "missed as built (one data source id); caught after adding scenario L8 (every data source has the same display name)"),
+ "C12-3": ("C12-1", "the creator of a shared trigger leaves by cancellation of its own REQUEST context while another subscriber stays", "MISSED (author resumed)", "missed as built"),
+ "C12-4": ("C12-2", "an IN filter with more than one value template", "MISSED (author resumed)", "missed as built (single-value filters only)"),
+ "C13-3": ("C13-1", "synchronous entry point, a SubscriptionOnCreate hook that rewrites the input, two subscribers equal before / different after the hook", "MISSED (author resumed)", "missed as built"),
+ "C13-4": ("C13-2", "resolver shutdown while a trigger is still in start-up", "C13 quick", "caught as built"),
+ "C14-3": ("C14-1", "a protected field whose only occurrences are below a list-of-lists field, pre-fetch authorization", "C14 quick", "missed as built; caught after adding the S-shapes family (this also exposed a genuine defect: fetches below a list of lists silently skipped, fixed in c9daf15)"),
+ "C14-4": ("C14-2", "subscription updates rendered from the trigger event alone, pre-fetch mode", "C14 quick", "caught as built (44 fingerprints)"),
+ "C15-3": ("C15-1", "two literals of one input type in one operation, one a string whose content is the JSON spelling of the other", "C15 quick", "missed as built; caught after adding twin literal pairs"),
+ "C15-4": ("C15-2", "client variables named like canonical names in non-canonical order on two fields, one of them omitted", "C15 quick", "missed as built (both variables sat on one field); caught after moving them to two aliased fields with one omitted"),
+ "C16-3": ("C16-1", "a fully cached batch entity fetch with another value of an entity-field argument", "C16 quick", "missed as built (every batch contained a never-stored null entity); caught after adding fully cached batches with two argument values"),
+ "C16-4": ("C16-2", "a second execution joining an in-flight entity fetch as single-flight follower, status >= 400 with a well-formed public body", "C16 quick", "missed as built (sequential histories); caught after adding part (c): pairs of operations in flight together, all completion orders"),
+ "C17-3": ("C17-1", "an object type declared before an interface it implements", "C17 quick", "caught as built"),
+ "C17-4": ("C17-2", "includeDeprecated supplied from a client variable", "C17 quick", "caught as built"),
+ "C18-3": ("C18-1", "a next / error frame without a payload member right after a frame with a payload for another subscription", "C18 quick", "missed as built; caught after the author added an alphabet of upstream frame shapes (1496 sequences)"),
+ "C18-4": ("C18-2", "the dialler's DEADLINE expires during protocol init while a waiter with a live context waits on the coalesced dial", "C18 quick", "missed as built (explicit cancels only); caught after the author added contexts that end by deadline in virtual time"),
+ "C19-3": ("C19-1", "a client that sends nothing at all", "C19 quick", "caught as built"),
+ "C19-4": ("C19-2", "a subscribe whose document has no determinable operation type", "C19 quick", "missed as built; caught after the author drove the operation type through the real ExecutorV2 and demanded that accepted operations are executed and answered"),
+ "C20-3": ("C20-1", "an interface / union field nested in a resolver or @requires result selected without any fragment", "MISSED (author resumed)", "missed as built"),
+ "C20-4": ("C20-2", "a resolver nested in a resolver over an _entities fetch mixing two entity types", "C20 quick", "caught as built"),
+}
+
+def log_summary(name, logdir="/tmp/seedlogs"):
+    p = "%s/%s.log" % (logdir, name)
     if not os.path.exists(p):
         return "verification log missing"
     txt = open(p).read()
@@ -84,5 +129,20 @@ for name, (prop, needs, caught, how) in SEEDS.items():
     meta = {"property": prop, "breaks": prop, "needs_to_manifest": needs, "produced_by": "independent sub-agent given only the property text and a scratch worktree",
             "confirmed_by_me": log_summary(name), "check_result": {"caught_by": caught, "how": how}, "run": "scripts/seedrun.sh seeded/%s/patch.diff %s quick (patch applied in a scratch worktree and handed to the driver as build overlay; equivalent to git -C /repo apply + ./check + git checkout)" % (name, prop)}
     meta.update(extra)
+    json.dump(meta, open(os.path.join(dst, "meta.json"), "w"), indent=1)
+    print(name, meta["confirmed_by_me"] if isinstance(meta["confirmed_by_me"], str) else (meta["confirmed_by_me"]["demo_without_change"], meta["confirmed_by_me"]["demo_with_change"], meta["confirmed_by_me"]["complete"]))
+
+for name, (srcname, needs, caught, how) in SEEDS2.items():
+    prop = name[:3]
+    src = "/tmp/seedout2/" + srcname
+    if not os.path.isdir(src) or not os.path.exists(src + "/patch.diff"):
+        continue
+    dst = os.path.join(os.path.dirname(os.path.dirname(os.path.abspath(__file__))), "seeded", name)
+    os.makedirs(dst, exist_ok=True)
+    for f in os.listdir(src):
+        if f in ("patch.diff", "demo_test.go", "notes.md"):
+            shutil.copy(os.path.join(src, f), os.path.join(dst, f if f != "demo_test.go" else "demo_test.go.txt"))
+    meta = {"property": prop, "breaks": prop, "round": 2, "needs_to_manifest": needs, "produced_by": "independent sub-agent (second round) given only the property text, a scratch worktree and a list of what round 1 had taken",
+            "confirmed_by_me": log_summary(srcname, "/tmp/seedlogs2"), "check_result": {"caught_by": caught, "how": how}, "run": "scripts/seedrun.sh seeded/%s/patch.diff %s quick" % (name, caught[:3] if caught.startswith("C") else prop)}
     json.dump(meta, open(os.path.join(dst, "meta.json"), "w"), indent=1)
     print(name, meta["confirmed_by_me"] if isinstance(meta["confirmed_by_me"], str) else (meta["confirmed_by_me"]["demo_without_change"], meta["confirmed_by_me"]["demo_with_change"], meta["confirmed_by_me"]["complete"]))
